@@ -597,3 +597,26 @@ PROPS["C03"]["manifest"]["text"] = PROPS["C03"]["manifest"]["text"].replace(
 PROPS["C03"]["manifest"]["note"] = ("Hypotheses: aligned blocks, no duplicate (network, length) per map (W1: contradictory data, "
     "the two backends keep different ones - w1_needed_rdb), 2-byte location ids; LocIdsOK / NoPctTag / EcsRegular for the "
     "file-level theorems (DESIGN.md 11.10, 11.13).")
+# --- last session: behavioural twins of three syntactic facts; caller-held locks in the lock table ---
+PROPS["C01"]["manifest"]["text"] += (
+    " The wild-safe byte classes are tied twice: op wildsafe reads the table of all 256 one-octet labels (and the count of "
+    "accepted two-octet labels) off the running dnsLabelWildsafe through a verif-tagged hook and the driver compares it with "
+    "Name.wildsafeByte; wildsafe_classes_match checks the syntactic copy of the classes when the function still is a chain "
+    "of range tests (Option fact: none = shape not recognised, reported in the run's notes; the table comparison stands alone).")
+PROPS["C12"]["manifest"]["text"] += (
+    " The key itself is tied twice: after every hist / race schedule the key strings held by the real LRU "
+    "(FBDNSDB.CacheKeysForVerif, verif-tagged hook) are compared with the keys of the model cache (keys= in the op output); "
+    "cache_key_format_matches checks the syntactic copy of the fmt.Sprintf format when there is one (Option fact).")
+PROPS["C20"]["manifest"]["text"] += (
+    " any_hinfo_matches reads the HINFO fields as literals or package constants (Option facts: none when the record is no "
+    "longer one composite literal with constant fields; the replies over real sockets are compared field by field in any case).")
+PROPS["C05"]["manifest"]["text"] += (
+    " reload_and_acquire_exclude_each_other is stated over fields, not function names: every non-init write of h.dnsdb / "
+    "h.dbConfig.Path under reloadMu exclusive, every read under reloadMu, wherever the access lives; rows of an unexported "
+    "helper list the receiver's lock that every one of its call sites holds (Generated.LockFacts.inferredCalledWith).")
+PROPS["C14"]["manifest"]["text"] += (
+    " Rows of an unexported, never-escaping method list the receiver's locks held at ALL of its call sites (inferred to a "
+    "fixed point by the extractor, printed as inferredCalledWith; one call site without the lock removes it from every row).")
+PROPS["C19"]["manifest"]["text"] += (
+    " Lock traces inline calls of methods of the same receiver (a cleaner body moved into a helper keeps its trace). Op cconc: "
+    "fresh counters incremented by several goroutines released together equal the sum of the increments.")
